@@ -193,6 +193,84 @@ def regoff(ctx: Ctx, rep: Report) -> None:
     rep.floor(R, n_sink, 6, 'circuit-index sinks in OPENQASMVisitor')
 
 
+def declonce(ctx: Ctx, rep: Report) -> None:
+    """DECLONCE: a name is declared once in the written program.
+
+    OPENQASM2Language.encode writes one declaration block per element of
+    `circuit.gate_set`.  gate_set holds one representative per *equality
+    class* of gates, so two unequal gates whose get_qasm_gate_def() texts
+    coincide (two MeasurementPlaceholders over the same classical registers
+    but with different measurement maps) declare the same name twice and the
+    output is not a valid program (BQSKit's own reader: "Classical register
+    redeclared").  Either
+      (A) encode passes every declaration block through a membership test
+          on a set of blocks already written, or
+      (B) every get_qasm_gate_def override reads at least the attributes
+          its class's __eq__ compares (equal text implies equal gates).
+    """
+    D = 'DECLONCE'
+    f = ctx.fn('bqskit/ir/lang/qasm2/qasm2.py:OPENQASM2Language.encode')
+    g = ctx.cfg(f)
+    rd = ctx.rd(f)
+    rep.seen(f.qualname)
+    writes = []
+    for n in g.nodes:
+        st = n.stmt
+        if isinstance(st, ast.AugAssign) and isinstance(st.op, ast.Add):
+            atoms_, defs = rd.closure(n, st.value)
+            srcs = [st.value] + [d.value for d in defs if d.value is not None]
+            if any(isinstance(c, ast.Call) and isinstance(
+                    c.func, ast.Attribute)
+                    and c.func.attr == 'get_qasm_gate_def'
+                    for s in srcs for c in ast.walk(s)):
+                writes.append(n)
+    rep.floor(D, len(writes), 1, 'declaration writes in encode')
+    deduped = bool(writes)
+    for n in writes:
+        v = norm(n.stmt.value)
+        gd = {(norm(t.stmt.test), lab) for t, lab in g.guards_of(n.id)
+              if t.kind == 'test'}
+        sets = {t.split(' not in ')[1] for t, lab in gd
+                if lab == 'true' and t.startswith(v + ' not in ')} | {
+                t.split(' in ')[1] for t, lab in gd
+                if lab == 'false' and t.startswith(v + ' in ')
+                and ' not in ' not in t}
+        recorded = any(
+            isinstance(c.func, ast.Attribute) and c.func.attr == 'add'
+            and norm(c.func.value) in sets and [norm(a) for a in c.args] == [v]
+            for m in g.nodes for c in m.calls())
+        deduped = deduped and bool(sets) and recorded
+    injective = True
+    offenders = []
+    for c in sorted(ctx.index.classes.values(), key=lambda c: c.qualname):
+        m = c.methods.get('get_qasm_gate_def')
+        eq = c.methods.get('__eq__')
+        if m is None or eq is None or not ctx.index.is_subclass(c, 'Gate'):
+            continue
+        reads = {x.attr for x in ast.walk(m.node) if isinstance(
+            x, ast.Attribute) and norm(x.value) == 'self'}
+        if 'hash(self)' in norm(m.node):
+            continue  # the declared name is the gate's own hash
+        cmp_ = {x.attr for x in ast.walk(eq.node) if isinstance(
+            x, ast.Attribute) and norm(x.value) == 'self'}
+        if not cmp_ <= reads:
+            injective = False
+            offenders.append(
+                f'{c.name} (declaration reads {sorted(reads)}, equality '
+                f'compares {sorted(cmp_)})')
+    rep.count()
+    rep.check(
+        deduped or injective, D, 'OPENQASM2Language.encode', f.path,
+        writes[0].lineno if writes else f.lineno,
+        'declaration blocks are written once (de-duplicated by encode)'
+        if deduped else 'every declaration text determines its gate',
+        'encode concatenates get_qasm_gate_def() over circuit.gate_set '
+        'without de-duplication, and unequal gates can produce the same '
+        'declaration: ' + '; '.join(offenders) + ' - the written program '
+        'declares a name twice', key='duplicate-declaration',
+    )
+
+
 def _unshifted(e: ast.AST, local: set[str], offset: set[str]) -> str | None:
     """A register-local value inside e that is not an operand of an addition
     whose other operand carries an offset."""
